@@ -198,6 +198,35 @@ pub fn value_of_sexp(s: &Sexp) -> Result<Value, String> {
 
 // ---------------------------------------------------------------- Simplicity types and values
 
+/// k such that t = 2^(2^k), if any
+fn word_exp(t: &Arc<Final>) -> Option<u32> {
+    match t.bound() {
+        CompleteBound::Sum(a, b) => match (a.bound(), b.bound()) {
+            (CompleteBound::Unit, CompleteBound::Unit) => Some(0),
+            _ => None,
+        },
+        CompleteBound::Product(a, b) => match (word_exp(a), word_exp(b)) {
+            (Some(x), Some(y)) if x == y => Some(x + 1),
+            _ => None,
+        },
+        _ => None,
+    }
+}
+
+/// compact rendering: (W k) stands for the 2^k-bit word type
+pub fn final_to_sexp_compact(t: &Arc<Final>) -> Sexp {
+    if let Some(k) = word_exp(t) {
+        if k >= 1 {
+            return Sexp::tagged("W", vec![Sexp::num(k)]);
+        }
+    }
+    match t.bound() {
+        CompleteBound::Unit => Sexp::atom("1"),
+        CompleteBound::Sum(a, b) => Sexp::tagged("+", vec![final_to_sexp_compact(a), final_to_sexp_compact(b)]),
+        CompleteBound::Product(a, b) => Sexp::tagged("*", vec![final_to_sexp_compact(a), final_to_sexp_compact(b)]),
+    }
+}
+
 pub fn final_to_sexp(t: &Arc<Final>) -> Sexp {
     match t.bound() {
         CompleteBound::Unit => Sexp::atom("1"),
